@@ -115,6 +115,17 @@ func GenScoping(r *rand.Rand, oneToggle string) []*Iface {
 					m.Notations = append(m.Notations, Notation{Name: cand[0], Args: cand[1:]})
 				}
 			}
+			// :reverse on some of the methods whose effective style is arg (it needs that style, and its
+			// presence on one method is nobody else's business)
+			style := "return"
+			for _, n := range append(append([]Notation{}, it.Notations...), m.Notations...) {
+				if n.Name == "style" && len(n.Args) > 0 {
+					style = n.Args[0]
+				}
+			}
+			if style == "arg" && r.Intn(3) == 0 {
+				m.Notations = append(m.Notations, Notation{Name: "reverse"})
+			}
 			m.HasErr = r.Intn(4) == 0
 			if m.HasErr && r.Intn(2) == 0 {
 				// an assignment that can fail: its error-return statement depends on this method's own style
